@@ -22,6 +22,7 @@ type evalCtx struct {
 	names map[string]tval
 	pkg   *types.Package
 	inOld bool
+	oldFromRoot bool // old(...) refers to the entry of the unit's root function (clauses of the root contract evaluated inside a closure)
 	nq    *int
 	bound map[string]bool
 }
@@ -151,14 +152,20 @@ func (c *evalCtx) eval1(e *Expr) (tval, error) {
 		return tval{t: NilLoc, ty: types.Typ[types.UntypedNil], nilLit: true}, nil
 	case "id":
 		if c.inOld {
-			// in the entry state a parameter name denotes the argument, even if the variable is addressable
-			for _, p := range c.fr.fn.Params {
-				if p.Name() == e.Name {
-					if t, ok := c.fr.regs[p]; ok {
-						if _, isBound := c.bound[e.Name]; !isBound {
-							return tval{t: t, ty: p.Type()}, nil
+			// in the entry state a parameter name denotes the argument, even if the variable is addressable; inside a
+			// closure that runs in context the parameters of the enclosing functions count as well (old = their entry)
+			for f := c.fr; f != nil; f = f.parent {
+				for _, p := range f.fn.Params {
+					if p.Name() == e.Name {
+						if t, ok := f.regs[p]; ok {
+							if _, isBound := c.bound[e.Name]; !isBound {
+								return tval{t: t, ty: p.Type()}, nil
+							}
 						}
 					}
+				}
+				if !c.oldFromRoot {
+					break
 				}
 			}
 		}
